@@ -201,6 +201,13 @@ def solve(name, system, t1, dt):
         warnings.simplefilter("ignore")
         if name == "ScipyIVP":
             return ScipyIVP(system, t1, dt, rtol=1e-9, atol=1e-10).solve()
+        if name == "ScipyIVP(no consistent initial conditions)":
+            # a legal way to assemble: nothing is precomputed for the initial time, what the wrapper reports there has to be solved for
+            from cardillo.solver import SolverOptions
+            system.assemble(options=SolverOptions(compute_consistent_initial_conditions=False))
+            return ScipyIVP(system, t1, dt, rtol=1e-9, atol=1e-10).solve()
+        if name == "DualStormerVerlet(accelerated=False)":
+            return DualStormerVerlet(system, t1, dt, options=_opts(), accelerated=False).solve()
         if name == "ScipyDAE":
             return ScipyDAE(system, t1, dt, rtol=1e-8, atol=1e-9).solve()
         cls = dict(Moreau=Moreau, BackwardEuler=BackwardEuler, Rattle=Rattle, DualStormerVerlet=DualStormerVerlet)[name]
@@ -224,7 +231,8 @@ def step_records(system, sol, solver, dt, tag, rid0, loose=1.0):
     scale = 1.0 + np.max(np.abs(u)) if len(u) else 1.0
     gmax_first = gmax_last = 0.0
     n = len(t)
-    for k in range(1, n):
+    # the ODE wrapper reports accelerations and multipliers at EVERY output time, the first one included; the fixed-step schemes are judged on the steps they made
+    for k in range(0 if solver == "ScipyIVP" else 1, n):
         viol, border, vals = [], [], {}
         def put(block, r, thr):
             c = classify(r, thr)
@@ -281,7 +289,7 @@ def step_records(system, sol, solver, dt, tag, rid0, loose=1.0):
     return recs
 
 
-SOLVERS = ["Rattle", "BackwardEuler", "DualStormerVerlet", "Moreau", "ScipyDAE", "ScipyIVP"]
+SOLVERS = ["Rattle", "BackwardEuler", "DualStormerVerlet", "Moreau", "ScipyDAE", "ScipyIVP", "ScipyIVP(no consistent initial conditions)", "DualStormerVerlet(accelerated=False)"]
 
 
 def run(ctx):
@@ -357,7 +365,7 @@ def run(ctx):
                     continue
                 tag = dict(system=si, parts=desc, solver=solver, dt=dt, rows=len(sol.t))
                 try:
-                    recs = step_records(system, sol, solver, dt, tag, len(records) + 1)
+                    recs = step_records(system, sol, solver.split("(")[0], dt, tag, len(records) + 1)
                 except Exception as ex:
                     ctx.violation(f"{solver}:evaluate:{type(ex).__name__}", f"evaluating the residuals of {tag} raised {type(ex).__name__}: {ex}", tag)
                     continue
